@@ -111,6 +111,8 @@ UNIT_DRIVERS = {
     "compaction_inputs": ["snapshot::reads_enum_quick"],
     "flush_protocol": ["wal::crash_enum_quick", "snapshot::timetravel_enum_quick"],
     "queue_dequeue": ["transaction::conflict_enum"],
+    "bptree_freelist": ["bptree_enum_quick"],
+    "oracle_restore": ["levels::checkpoint_enum_quick"],
     "vlog_file": ["sstable::table::min_vlog_file_id_enum"],
     "lock_order": ["transaction::cursor_enum_quick"],
 }
